@@ -472,7 +472,7 @@ func init() {
 		Enumerate:   c05Enumerate,
 		Run:         c05Run,
 		CaseTimeout: 300 * time.Second,
-		Budget:      map[string]time.Duration{"quick": 170 * time.Second, "thorough": 60 * time.Minute},
+		Budget:      map[string]time.Duration{"quick": 400 * time.Second, "thorough": 60 * time.Minute},
 		Extra: func(stats map[string]int64, cov map[string]any) {
 			cov["generator_words_enumerated"] = stats["words"]
 		},
